@@ -2,32 +2,52 @@
 (***************************************************************************)
 (* C14 — nodes that disagree about the data refuse to answer.              *)
 (*                                                                         *)
-(* One fragment exchange, one action per step of the implementation:       *)
+(* A HISTORY of fragment exchanges between one long-lived initiator and    *)
+(* one long-lived worker context.  One exchange, one action per step of    *)
+(* the implementation:                                                     *)
 (*   InitiatorSend    the initiator enumerates ITS copy for n shards and   *)
 (*                    sends (shard_index, shard_count, digest)             *)
 (*   WorkerMalformed  a request without a usable shard index never runs    *)
-(*   WorkerEnumerate  the worker enumerates ITS OWN copy for shard_count   *)
+(*   WorkerEnumerate  the worker enumerates ITS OWN copy, AS IT IS NOW,    *)
+(*                    for shard_count                                      *)
 (*   WorkerCompare    digest mismatch -> refused                           *)
 (*   WorkerSlice      shard_index out of range -> refused, else the        *)
 (*                    fragment runs over the worker's slice                *)
-(* TLC enumerates every base inventory in the bounds, paired with every    *)
-(* variant of it (same content listed in another order / under other       *)
-(* directories; every single-attribute mutation: file name, row-group      *)
-(* layout, a row count, a byte size, an extra / a missing file) as the     *)
-(* worker's copy, every shard count in Ns and shard indices -1 (absent),   *)
-(* 0, n-1, n, n+1.                                                         *)
-(* Safety: a fragment runs only if both copies have the same split-relevant*)
-(* content and the index is in range; then it runs over exactly the rows   *)
-(* the initiator attributes to that shard.                                 *)
+(* Between exchanges the environment may rewrite either copy IN PLACE      *)
+(* (Evolve: same files, another row-group layout / row count / byte size,  *)
+(* or bring one copy in line with the other) and the next exchange may use *)
+(* another shard count.  Nothing the worker context remembers from earlier *)
+(* exchanges may decide a later one: the invariant is about the files as   *)
+(* they are when the fragment is answered.                                 *)
+(*                                                                         *)
+(* MaxEx = 1: TLC enumerates every base inventory in the bounds paired     *)
+(* with every variant as the worker's copy (same content re-listed /       *)
+(* re-mounted; every single-attribute mutation: file name, row-group       *)
+(* layout, a row count, a byte size, an extra / a missing file), every     *)
+(* shard count in Ns and shard indices -1 (absent), 0, n-1, n, n+1.        *)
+(* MaxEx > 1 (InPlace = TRUE): every history of MaxEx exchanges with       *)
+(* in-place rewrites of either side between them.                          *)
+(* Memo = TRUE is a named DEVIATION (the worker context memoises its split *)
+(* set per shard count): TLC must find the stale-answer counterexample,    *)
+(* which shows the histories are long enough to expose such a defect.      *)
 (***************************************************************************)
 EXTENDS SplitsOps, LptOps
 
-CONSTANTS MaxFiles, MaxRgs, MaxRows, ByteVals, Ns
+CONSTANTS MaxFiles, MaxRgs, MaxRows, ByteVals, Ns,
+          MaxEx,      \* exchanges per history
+          InPlace,    \* TRUE: only variants that keep the file set (what an in-place rewrite can do)
+          IdxAll,     \* TRUE: shard indices -1, 0, n-1, n, n+1; FALSE: 0 and n
+          Memo,       \* deviation: the worker memoises its digest per shard count
+          EmitShapes  \* TRUE: emit only the histories in which, at one shard count and with valid indices, the
+                      \* copies agree and later differ, or differ and later agree (FALSE: emit every history)
 
 VARIABLES shape,   \* [F, lens] chosen first
-          pair,    \* [init, work, kind, n, idx]
-          pc, req, wdig, out, rows
-vars == <<shape, pair, pc, req, wdig, out, rows>>
+          pair,    \* [init, work, kind, n, idx]: both copies as they are NOW + the current request parameters
+          pc, req, wdig, out, rows,
+          ex,      \* number of the current exchange
+          memo,    \* what the worker context remembers: shard count -> digest (stays empty unless Memo)
+          hist     \* finished exchanges: <<[init, work, kind, n, idx, expect, same]>>
+vars == <<shape, pair, pc, req, wdig, out, rows, ex, memo, hist>>
 
 RgVals == {[rows |-> 0, bytes |-> 0]} \cup [rows : 1..MaxRows, bytes : ByteVals]
 RECURSIVE Chop(_, _, _)
@@ -36,15 +56,19 @@ Chop(flat, lens, k) == IF k > Len(lens) THEN <<>>
 
 Reverse(s) == [i \in DOMAIN s |-> s[Len(s) + 1 - i]]
 Moved(files) == [i \in DOMAIN files |-> [files[i] EXCEPT !.dir = @ + 10]]
+InPlaceKinds == {"rowplus", "bytesplus", "rgplus", "rgminus"}
+InPlaceMutants(files) == {m \in Mutants(files) : m.kind \in InPlaceKinds}
 \* the worker's copy: the same content differently listed/mounted, or one attribute changed
-Variants(files) == {[kind |-> "same", files |-> files],
-                    [kind |-> "same-moved", files |-> Moved(files)],
-                    [kind |-> "same-perm", files |-> Moved(Reverse(files))]}
-                   \cup Mutants(files)
-Indices(n) == {-1, 0, n - 1, n, n + 1}
+Variants(files) == IF InPlace THEN {[kind |-> "same", files |-> files]} \cup InPlaceMutants(files)
+                   ELSE {[kind |-> "same", files |-> files],
+                         [kind |-> "same-moved", files |-> Moved(files)],
+                         [kind |-> "same-perm", files |-> Moved(Reverse(files))]}
+                        \cup Mutants(files)
+Indices(n) == IF IdxAll THEN {-1, 0, n - 1, n, n + 1} ELSE {0, n}
 
 NoPair == [n |-> 0]
 Init == /\ pc = "shape" /\ pair = NoPair /\ req = NoPair /\ wdig = <<>> /\ out = "none" /\ rows = {}
+        /\ ex = 1 /\ memo = <<>> /\ hist = <<>>
         /\ \E F \in 1..MaxFiles, L \in 0..MaxRgs : \E lens \in [1..F -> 0..L] :
               /\ SumSeq(lens) = L
               /\ shape = [F |-> F, lens |-> lens]
@@ -56,26 +80,35 @@ Fill == /\ pc = "shape"
               IN \E v \in Variants(base), n \in Ns : \E idx \in Indices(n) :
                     pair' = [init |-> base, work |-> v.files, kind |-> v.kind, n |-> n, idx |-> idx]
         /\ pc' = "init"
-        /\ UNCHANGED <<shape, req, wdig, out, rows>>
+        /\ UNCHANGED <<shape, req, wdig, out, rows, ex, memo, hist>>
 
 InitiatorSend == /\ pc = "init"
                  /\ req' = [digest |-> Digest(ImplEnumerate(pair.init, pair.n)), n |-> pair.n, idx |-> pair.idx]
                  /\ pc' = "sent"
-                 /\ UNCHANGED <<shape, pair, wdig, out, rows>>
+                 /\ UNCHANGED <<shape, pair, wdig, out, rows, ex, memo, hist>>
+
+Finished(o) == Append(hist, [init |-> pair.init, work |-> pair.work, kind |-> pair.kind, n |-> pair.n, idx |-> pair.idx,
+                             expect |-> o, same |-> IF SameContent(pair.init, pair.work) THEN 1 ELSE 0])
 
 WorkerMalformed == /\ pc = "sent" /\ req.idx < 0
-                   /\ out' = "refused" /\ pc' = "done"
-                   /\ UNCHANGED <<shape, pair, req, wdig, rows>>
+                   /\ out' = "refused" /\ pc' = "done" /\ hist' = Finished("refused")
+                   /\ UNCHANGED <<shape, pair, req, wdig, rows, ex, memo>>
 
+\* the worker's digest comes from its files as they are now; under the deviation Memo it is whatever
+\* this context computed the first time it was asked for that shard count
 WorkerEnumerate == /\ pc = "sent" /\ req.idx >= 0
-                   /\ wdig' = Digest(ImplEnumerate(pair.work, req.n))
+                   /\ LET fresh == Digest(ImplEnumerate(pair.work, req.n))
+                          known == {i \in DOMAIN memo : memo[i].n = req.n}
+                      IN IF Memo /\ known # {}
+                         THEN wdig' = memo[CHOOSE i \in known : TRUE].digest /\ memo' = memo
+                         ELSE wdig' = fresh /\ memo' = IF Memo THEN Append(memo, [n |-> req.n, digest |-> fresh]) ELSE memo
                    /\ pc' = "enumerated"
-                   /\ UNCHANGED <<shape, pair, req, out, rows>>
+                   /\ UNCHANGED <<shape, pair, req, out, rows, ex, hist>>
 
 WorkerCompare == /\ pc = "enumerated"
-                 /\ IF wdig = req.digest THEN pc' = "assigned" /\ out' = out
-                    ELSE pc' = "done" /\ out' = "refused"
-                 /\ UNCHANGED <<shape, pair, req, wdig, rows>>
+                 /\ IF wdig = req.digest THEN pc' = "assigned" /\ out' = out /\ hist' = hist
+                    ELSE pc' = "done" /\ out' = "refused" /\ hist' = Finished("refused")
+                 /\ UNCHANGED <<shape, pair, req, wdig, rows, ex, memo>>
 
 \* rows (file name, row group, row) of shard idx of `files` divided n ways
 RowsOfShard(files, n, idx) ==
@@ -85,21 +118,43 @@ RowsOfShard(files, n, idx) ==
 
 WorkerSlice == /\ pc = "assigned"
                /\ IF req.idx < req.n
-                  THEN out' = "ran" /\ rows' = RowsOfShard(pair.work, req.n, req.idx)
-                  ELSE out' = "refused" /\ rows' = rows
+                  THEN out' = "ran" /\ rows' = RowsOfShard(pair.work, req.n, req.idx) /\ hist' = Finished("ran")
+                  ELSE out' = "refused" /\ rows' = rows /\ hist' = Finished("refused")
                /\ pc' = "done"
-               /\ UNCHANGED <<shape, pair, req, wdig>>
+               /\ UNCHANGED <<shape, pair, req, wdig, ex, memo>>
 
-Next == Fill \/ InitiatorSend \/ WorkerMalformed \/ WorkerEnumerate \/ WorkerCompare \/ WorkerSlice
+\* ---- between exchanges: the environment rewrites files in place, then the next request arrives ----
+\* content of `src` written over the files of `dst` (same names, dst keeps its directories)
+Overwrite(dst, src) == [i \in DOMAIN dst |-> [dst[i] EXCEPT !.rgs = src[i].rgs]]
+Evolve == /\ pc = "done" /\ ex < MaxEx
+          /\ \E n \in Ns : \E idx \in Indices(n) :
+                \/ pair' = [pair EXCEPT !.n = n, !.idx = idx, !.kind = "unchanged"]
+                \/ \E m \in InPlaceMutants(pair.work) :                       \* WorkerFilesChange
+                      pair' = [pair EXCEPT !.work = m.files, !.n = n, !.idx = idx, !.kind = "worker-" \o m.kind]
+                \/ \E m \in InPlaceMutants(pair.init) :                       \* InitiatorFilesChange
+                      pair' = [pair EXCEPT !.init = m.files, !.n = n, !.idx = idx, !.kind = "initiator-" \o m.kind]
+                \/ /\ ~SameContent(pair.init, pair.work)                       \* the worker's copy is brought in line
+                   /\ pair' = [pair EXCEPT !.work = Overwrite(pair.work, pair.init), !.n = n, !.idx = idx, !.kind = "worker-fixed"]
+                \/ /\ ~SameContent(pair.init, pair.work)                       \* the initiator's copy is brought in line
+                   /\ pair' = [pair EXCEPT !.init = Overwrite(pair.init, pair.work), !.n = n, !.idx = idx, !.kind = "initiator-fixed"]
+          /\ ex' = ex + 1 /\ pc' = "init" /\ out' = "none" /\ rows' = {} /\ wdig' = <<>> /\ req' = NoPair
+          /\ UNCHANGED <<shape, memo, hist>>
+
+Next == Fill \/ InitiatorSend \/ WorkerMalformed \/ WorkerEnumerate \/ WorkerCompare \/ WorkerSlice \/ Evolve
 
 \* ---- properties ---------------------------------------------------------------
 InRange == pair.idx >= 0 /\ pair.idx < pair.n
-Safety == out = "ran" => (SameContent(pair.init, pair.work) /\ InRange)
+\* answered only if the copies AS THEY ARE NOW agree (equivalently: the digest the worker would compute
+\* from its files now equals the request's) and the index is a shard
+Safety == out = "ran" => (SameContent(pair.init, pair.work) /\ InRange
+                          /\ Digest(ImplEnumerate(pair.work, pair.n)) = req.digest)
 SameRows == out = "ran" => rows = RowsOfShard(pair.init, pair.n, pair.idx)
 NothingBeforeTheGate == rows # {} => (out = "ran" /\ wdig = req.digest)
 \* the gate is not a blanket refusal: equal copies and a valid index do run
 Complete == pc = "done" => ((SameContent(pair.init, pair.work) /\ InRange) => out = "ran")
+HistLen == (pc = "done" => Len(hist) = ex) /\ (pc # "done" => Len(hist) = ex - 1)
 
-Emit == pc = "done" => EmitCase([init |-> pair.init, work |-> pair.work, kind |-> pair.kind, n |-> pair.n, idx |-> pair.idx,
-                                 expect |-> out, same |-> IF SameContent(pair.init, pair.work) THEN 1 ELSE 0])
+Valid(st) == st.idx >= 0 /\ st.idx < st.n
+KeyShape(h) == \E i, j \in DOMAIN h : i < j /\ h[i].n = h[j].n /\ Valid(h[i]) /\ Valid(h[j]) /\ h[i].same # h[j].same
+Emit == (pc = "done" /\ ex = MaxEx /\ (EmitShapes => KeyShape(hist))) => EmitCase([steps |-> hist])
 ====
